@@ -246,9 +246,75 @@ def r5(ctx, R):
             R.violation("C15.R5", f.short, what, loc(f, node), why)
 
 
+def r6(ctx, R):
+    R.rule("C15.R6", "inside a resolver an object is resolved before it is read: a call that hands object X to a method reading fields which X.resolve_*() fills comes after (is dominated by) that resolve call - otherwise what is copied depends on whether another file's link pass already ran", floor=1, confirmed=1)
+    summ = ctx.e.summaries()
+    fobj = ctx.m.cname.get("FortranObj")
+    cone = ctx.m.cone(fobj) if fobj else set()
+    by_name = {}
+    for cq in cone:
+        for mn, q in ctx.m.classes[cq].methods.items():
+            if mn.startswith("resolve_"):
+                by_name.setdefault(mn, set()).add(q)
+
+    def fields_written(mn):
+        out = set()
+        for q in by_name.get(mn, ()):
+            for (root, path, kind) in summ.get(q, {}):
+                if root == "self":
+                    out.add(path[0] if isinstance(path, tuple) and path else path)
+        return out
+
+    n = 0
+    for cq in sorted(cone):
+        for mn, q in sorted(ctx.m.classes[cq].methods.items()):
+            if not mn.startswith("resolve_"):
+                continue
+            f = ctx.m.funcs[q]
+            res_calls = {}
+            for c in calls_in(f.node):
+                if ctx.m.enclosing_func(c) is f and isinstance(c.func, ast.Attribute) and c.func.attr.startswith("resolve_") and isinstance(c.func.value, ast.Name) and c.func.value.id != f.params[0]:
+                    res_calls.setdefault(c.func.value.id, []).append(c)
+            if not res_calls:
+                continue
+            cfg = ctx.cfg(f)
+            dom = cfg.dominators(follow_exc=False)
+            for c in calls_in(f.node):
+                if ctx.m.enclosing_func(c) is not f or (isinstance(c.func, ast.Attribute) and c.func.attr.startswith("resolve_")):
+                    continue
+                for i, a in enumerate(c.args):
+                    if not (isinstance(a, ast.Name) and a.id in res_calls):
+                        continue
+                    # fields of that parameter the callee reads
+                    reads = set()
+                    for t in ctx.r.resolve_call(f, c)[1]:
+                        g = ctx.m.funcs.get(t)
+                        if g is None:
+                            continue
+                        ps = g.params[1:] if g.cls else g.params
+                        if i >= len(ps):
+                            continue
+                        pn = ps[i]
+                        reads |= {x.attr for x in ctx.m.walk_own(g.node) if isinstance(x, ast.Attribute) and isinstance(x.ctx, ast.Load) and isinstance(x.value, ast.Name) and x.value.id == pn}
+                    for rc in res_calls[a.id]:
+                        common = reads & fields_written(rc.func.attr)
+                        if not common:
+                            continue
+                        n += 1
+                        cn, rn = cfg.node_of(c), cfg.node_of(rc)
+                        k = f"{unparse(rc)[:40]} before {unparse(c)[:40]}"
+                        if cn is not None and rn is not None and rn.id in dom.get(cn.id, set()) and rn.id != cn.id:
+                            R.ok("C15.R6", f.short, k, loc(f, c), f"reads {sorted(common)} after they are resolved")
+                        else:
+                            R.violation("C15.R6", f.short, k, loc(f, c), f"`{unparse(c)[:50]}` reads {sorted(common)} of `{a.id}`, which `{unparse(rc)[:40]}` fills, but is not preceded by it on every path: if the file that declares `{a.id}` has not been linked yet the copy is taken from an unresolved object, and the result depends on the order in which files are linked")
+    if n == 0:
+        R.undecided("C15.R6", "resolvers", "resolve-then-read pairs", "fortls:0", "no resolver hands an object it resolves to a reader of the resolved fields")
+
+
 def run(ctx, R):
     r1(ctx, R)
     r2(ctx, R)
     r3(ctx, R)
     r4(ctx, R)
     r5(ctx, R)
+    r6(ctx, R)
